@@ -22,35 +22,35 @@ NA = {
 CHECKS = {
  "C18": dict(
    level="exploration",
-   text="Seeded search over (a) repeated fresh-process runs of one invocation (different GOMAXPROCS, sandbox paths, PIDs; incl. a source aimed at Go map iteration order), (b) histories of 10-40 evaluations sharing parser, parsed trees and pooled decoder/encoder instances (eleven formats, two YAML decoders) in one process, each step compared with the same job alone in a fresh process, (c) interleavings of 2-4 concurrent evaluations under a scheduler that keeps exactly one goroutine runnable and takes every hand-off decision (operator dispatch, lexer token, parse phase, decode/print iteration, every Read/Write) from the scenario's choice list, each task compared with its solo result, and (d) the same task pools in a -race build whose goroutines walk in step (barrier at every yield point) so that unordered accesses are seen on a busy machine too (labelled: not deterministic simulation, evidence probabilistic). Job pools are themed by operator family so that evaluations touching the same machinery meet. Sampling of histories and schedules: evidence, not proof.",
+   text="Seeded search over (a) repeated fresh-process runs of one invocation (different GOMAXPROCS, sandbox paths, PIDs; incl. a source aimed at Go map iteration order), (b) histories of 10-40 evaluations sharing parser, parsed trees and pooled decoder/encoder instances (eleven formats, two YAML decoders) in one process, each step compared with the same job alone in a fresh process, (c) interleavings of 2-4 concurrent evaluations under a scheduler that keeps exactly one goroutine runnable and takes every hand-off decision (operator dispatch, lexer token, parse phase, decode/print iteration, every Read/Write) from the scenario's choice list, each task compared with its solo result, and (d) the same task pools in a -race build whose goroutines walk in step (barrier at every yield point) so that unordered accesses are seen on a busy machine too (labelled: not deterministic simulation, evidence probabilistic). Job pools are themed (fourteen themes: operator families, codec objects with preferences of their own and from the format registry, input-less evaluations, string evaluators kept between calls, eval nested through the data). (a) also samples collection order on 64-300 entry collections. Sampling of histories and schedules: evidence, not proof.",
    ref="DESIGN.md §5.4",
    note="Trusted: pre-emption happens only at yield points (a hazard between two yields is left to the race detector); Go-runtime randomness (map order, temp names) is only sampled by repetition; time/random/env operators are excluded as the property says.",
    technique="deterministic in-process scheduler (one runnable goroutine, seeded hand-offs at yield hooks) + history replay against solo reference processes + repeated-process determinism + Go race detector on free-running task pools",
    engine="libsim + procsim"),
  "C11": dict(
    level="exploration",
-   text="Seeded runs of the real binary on documents of all ten input formats that are valid, damaged by 1-3 storage faults (truncation biased to delimiter boundaries, chopped final newline, bit flip, zeroed/duplicated/stale/inserted block), arbitrary bytes, or adversarial but legal (self-referencing anchors, self-evaluating eval, non-terminating Lua, deep nesting), delivered under seeded short-read schedules with optional read EIO, write errors (ENOSPC/EIO/EAGAIN/EINTR/EPIPE/EBADF/EFBIG), directories as input, -i with step faults, -s under descriptor exhaustion; grammar-generated, probe, token-soup and damaged (--from-file) expressions; every output format and file extension. Oracles: exit in {0,1}, no panic/fatal/goroutine dump/foreign signal, termination within a hook-counted step budget (reader polled after its end; wall-clock backstop with isolated re-run), exit 1 implies a message. The healthy-input x arbitrary-expression clause is only reached by the fault-free configuration and is not claimed as decided. Sampling: evidence, not proof.",
+   text="Seeded runs of the real binary on documents of all ten input formats that are valid, damaged by 1-3 storage faults (truncation biased to delimiter boundaries, chopped final newline, bit flip, zeroed/duplicated/stale/inserted block), arbitrary bytes, or adversarial but legal (self-referencing anchors, self-evaluating eval, non-terminating Lua, deep nesting, Lua table graphs and sparse keys, values that mention each other in ${..} notation, huge indices, tags that disagree with the kind), delivered under seeded short-read schedules with optional read EIO, write errors (ENOSPC/EIO/EAGAIN/EINTR/EPIPE/EBADF/EFBIG), directories as input, -i with step faults, -s under descriptor exhaustion; grammar-generated, probe, token-soup and damaged (--from-file) expressions; every output format and file extension. Oracles: exit in {0,1}, no panic/fatal/goroutine dump/foreign signal, termination within a hook-counted step budget (reader polled after its end; wall-clock backstop with isolated re-run), exit 1 implies a message. The healthy-input x arbitrary-expression clause is only reached by the fault-free configuration and is not claimed as decided. Sampling: evidence, not proof.",
    ref="DESIGN.md §5.2",
    note="Trusted: panic detection by exit status and goroutine dump on stderr; the step budget counts hook events (operator dispatches, reads, writes); RLIMIT_AS 4 GiB is a guard, not a fault.",
    technique="deterministic process-level storage-fault simulation: seeded byte damage, short reads, read/write errors against the real binary, crash and bounded-liveness (step budget) oracles, known findings keyed by panic class + function",
    engine="procsim"),
  "C19": dict(
    level="exploration",
-   text="Seeded multi-file/multi-document runs of the real binary in fifteen variants: read EIO at a byte of an input or of the front-matter stream, write ENOSPC/EIO/EAGAIN/... with partial write at a byte of stdout (also outputs larger than one buffer, colours) and the real /dev/full, unopenable input at an argument position (missing, directory, errno), decode/evaluation failure generated at document (i,j), a malformed record per an independent reader of the format (csv, tsv, json, toml, lua, xml), impossible invocations, completeness of exit-0 runs against per-document references, -e, -n in every spelling, format auto-detection (also stdin first) and --from-file equivalence; fault positions are drawn inside the ranges observed in a fault-free traced pre-run. The encoder-domain and -0 clauses run as the fault-free configuration and are not claimed to be decided by simulation. Sampling: evidence, not proof.",
+   text="Seeded multi-file/multi-document runs of the real binary in eighteen variants: read EIO at a byte of an input or of the front-matter stream, write ENOSPC/EIO/EAGAIN/... with partial write at a byte of stdout (also outputs larger than one buffer, colours) and the real /dev/full, unopenable input at an argument position (missing, directory, errno), decode/evaluation failure generated at document (i,j), a malformed record per an independent reader of the format (csv, tsv, json, toml, lua, xml, base64, uri), a failure on a non-last element inside 28 operator contexts, inputs without any document, split output (-s) incl. failing split expressions and stale output files, the root command (flags only, input on stdin, also a producer that stays silent for a while), impossible invocations, completeness of exit-0 runs against per-document references, -e, -n in every spelling, format auto-detection (also stdin first) and --from-file equivalence; fault positions are drawn inside the ranges observed in a fault-free traced pre-run. The encoder-domain and -0 clauses run as the fault-free configuration and are not claimed to be decided by simulation. Sampling: evidence, not proof.",
    ref="DESIGN.md §5.5",
    note="Trusted: the reader/writer wrappers sit directly below yq's bufio layers; the prefix rule (bytes already written are a prefix of the fault-free output); -e judged on the -o=json -I0 rendering parsed by the driver.",
    technique="deterministic process-level fault simulation of the command layer: seeded read/write/open faults by position in a multi-file run, generated decode/eval failures, exit-status/stderr/stdout-prefix oracles against fault-free reference processes",
    engine="procsim"),
  "C10": dict(
    level="exploration",
-   text="Seeded histories of 1-4 files x 0-3 documents (all YAML layout classes, JSON streams, one-document formats incl. base64/uri/Lua-globals in multi-file sequences, stdin, named pipes, a file loaded by every document) are processed by one real yq process under a seeded short-read schedule and compared with the join of fresh single-document reference processes for nine output formats (O10.1/O10.2), with id conservation/order (O10.3), ground-truth provenance in eval and eval-all mode (O10.4), schedule transparency (O10.5), eval-all vs eval on total expressions (O10.6) and identity document count by an independent splitter (O10.7). Sampling of histories and schedules: evidence, not proof.",
+   text="Seeded histories of 1-4 files x 0-3 documents (all YAML layout classes, JSON streams, one-document formats incl. base64/uri/Lua-globals in multi-file sequences, stdin, named pipes, a file loaded by every document) are processed by one real yq process under a seeded short-read schedule and compared with the join of fresh single-document reference processes for nine output formats (O10.1/O10.2), with id conservation/order (O10.3), ground-truth provenance in eval and eval-all mode (O10.4), schedule transparency (O10.5), eval-all vs eval on total expressions (O10.6), identity document count by an independent splitter (O10.7) and split output files against the per-document runs (O10.8); also documents nested deeper than 100 levels and a stream of more than 65536 documents with a closed-form oracle. Sampling of histories and schedules: evidence, not proof.",
    ref="DESIGN.md §5.1",
    note="Trusted: yq on one document in a fresh process is the reference (a defect identical in the single-document run is out of scope); the join model of `---`; gopkg.in/yaml.v3 as independent document splitter; read-chunk delivery is stubbed below bufio.",
    technique="deterministic process-level simulation of input histories and read schedules against single-document reference runs (refinement of the one-document behaviour), shrinking to a replayable scenario",
    engine="procsim"),
  "C12": dict(
    level="fault_enumeration",
-   text="Per sampled (expression, file, flags, TMPDIR placement, link situation) scenario the finite set of step boundaries of the in-place protocol - incl. the sibling-temp fallback and the last-resort in-place overwrite - is decided completely by the snapshot invariant (target is OLD or NEW at every hook event, OLD never after NEW); errno/kill/partial-write/failed-close/read-error faults drawn inside the observed step and byte ranges, the real EXDEV, and syscall-level faults by strace (rename, fsync, write, close, unlink, chmod, chown) are executed in fresh processes of the real binary and judged by exit-status/content/mode (O12.1/O12.2), front-matter appendix (O12.4) and frame (O12.5: nothing but the target changes; symbolic and hard links) oracles. Scenarios are sampled, fault points per scenario are enumerated: evidence, not proof.",
+   text="Per sampled (expression, file, flags, TMPDIR placement, link situation) scenario the finite set of step boundaries of the in-place protocol - incl. the sibling-temp fallback and the last-resort in-place overwrite - is decided completely by the snapshot invariant (target is OLD or NEW at every hook event, OLD never after NEW); errno/kill/partial-write/failed-close/read-error faults drawn inside the observed step and byte ranges, a runtime failure (panic) injected at a yield point so that yq's deferred finalisers run while it unwinds, the real EXDEV, a real volume without room for a second copy (tmpfs per run), and syscall-level faults by strace (rename, fsync, write, close, unlink, chmod, chown) are executed in fresh processes of the real binary and judged by exit-status/content/mode (O12.1/O12.2), front-matter appendix (O12.4) and frame (O12.5: nothing but the target changes; symbolic and hard links) oracles. Scenarios are sampled, fault points per scenario are enumerated: evidence, not proof.",
    ref="DESIGN.md §5.3",
    note="Trusted: the verifhook step points sit immediately before the calls they name; a killed process keeps what it handed to the kernel (no power-loss model); NEW is the fault-free stdout of the same command without -i; synthesised errnos are routed only into the real call's own error branch.",
    technique="deterministic process-level fault simulation: seeded fault plans (errno / SIGKILL / short+failed writes / failed close / EXDEV) executed by hooks inside the real yq binary, snapshot invariant over the recorded trace, shrinking to a replayable scenario",
